@@ -108,13 +108,20 @@ func (e *Explorer) run(sc *world.Scenario, prefix []int) (r execResult) {
 func Judge(sc *world.Scenario, w *world.World) []world.Violation {
 	var vs []world.Violation
 	if w.Panic != nil {
-		vs = append(vs, world.Violation{Sig: "crash", Msg: fmt.Sprintf("proxy panicked: %v\n%s", w.Panic, clipStack(w.Stack))})
+		sig := "crash"
+		if sc.CrashSig != "" {
+			sig = sc.CrashSig
+		}
+		vs = append(vs, world.Violation{Sig: sig, Msg: fmt.Sprintf("proxy panicked: %v\n%s", w.Panic, clipStack(w.Stack))})
 	}
 	if w.Livelock {
 		vs = append(vs, world.Violation{Sig: "livelock", Msg: "proxy loop iterated > 2e6 times without a system call"})
 	}
 	if w.RunErr != nil {
 		vs = append(vs, world.Violation{Sig: "loop-exit", Msg: "event loop terminated: " + w.RunErr.Error()})
+	}
+	if w.HorizonHit && sc.HorizonSig != "" {
+		vs = append(vs, world.Violation{Sig: sc.HorizonSig, Msg: fmt.Sprintf("execution still producing events after %d scheduling steps", w.Steps)})
 	}
 	if w.EarlyViol != nil {
 		vs = append(vs, *w.EarlyViol)
@@ -194,15 +201,27 @@ func (e *Explorer) explore(sc *world.Scenario, prefix []int, devs int) bool {
 		}
 	}
 	complete := true
-	if sc.Bound >= 0 && devs >= sc.Bound {
-		return true
+	free := func(kind string) bool {
+		for _, k := range sc.FreeKinds {
+			if k == kind {
+				return true
+			}
+		}
+		return false
 	}
 	for i := len(prefix); i < len(r.points); i++ {
+		cost := 1
+		if free(r.points[i].Kind) {
+			cost = 0
+		}
+		if sc.Bound >= 0 && devs+cost > sc.Bound {
+			continue
+		}
 		for alt := 1; alt < r.points[i].N; alt++ {
 			np := make([]int, i+1)
 			copy(np, r.choices[:i])
 			np[i] = alt
-			if !e.explore(sc, np, devs+1) {
+			if !e.explore(sc, np, devs+cost) {
 				complete = false
 				return false
 			}
